@@ -234,7 +234,11 @@ func (c *EvalCtx) eval(e Expr) Val {
 		switch x.K {
 		case KSlice:
 			et := x.T.Underlying().(*types.Slice).Elem()
-			return eng.loadElem(c.p, c.snap(), x.S, "(+ "+x.Off+" "+i.S+")", et)
+			idx := i.S
+			if x.Off != "0" {
+				idx = "(+ " + x.Off + " " + i.S + ")"
+			}
+			return eng.loadElem(c.p, c.snap(), x.S, idx, et)
 		case KGhostMap:
 			return Val{K: KScalar, S: sel(x.S, i.S), Sort: x.GV}
 		case KScalar:
